@@ -116,7 +116,7 @@ def u_stack(c):
         c.prove("get/frame", stk.fields["instrument_count"] is ic and stk.fields["captures"] is cnt)
 
 
-@unit("SyncedStackedTransforms", ["C05", "C14"], [TR + ":SyncedStackedTransforms.push", TR + ":SyncedStackedTransforms.pop",
+@unit("SyncedStackedTransforms", ["C05", "C14", "C02", "C06"], [TR + ":SyncedStackedTransforms.push", TR + ":SyncedStackedTransforms.pop",
                                                  TR + ":SyncedStackedTransforms._apply", TR + ":StackedTransforms.get"],
       assumed=["codefind.code_registry.update_cache_entry is used through a ghost event (its effect on resolution is specified under C14)"],
       replay=_replay_file("c05_history.py"))
@@ -177,7 +177,7 @@ def u_synced(c):
         c.prove("apply/installed", fn.attrs.get("__code__") is var[1] and fn.attrs.get("__ptera_info__") is var[2] and fn.attrs.get("__ptera_token__") is var[3])
         c.prove("apply/not-discarded", fn.attrs.get("__ptera_discard__") is False)
         c.prove("apply/self-reference", glb.get(var[3]) is fn and len(glb) == 1)
-        c.prove("apply/registry-told-before-swap", len(reg) == 1 and reg[0][0] is fn and reg[0][1] is oldcode and reg[0][2] is var[1])
+        c.prove("apply/registry-told-before-swap", len(reg) == 1 and reg[0][0] is fn and reg[0][1] is oldcode and reg[0][2] is var[1], only=["C05", "C14"])
 
 
 @unit("TransformSet", ["C05", "C14", "C11", "C02"], [TR + ":TransformSet.__init__", TR + ":TransformSet._set_base", TR + ":TransformSet._register",
@@ -403,7 +403,7 @@ def _observer(it, name, events):
 
 @unit("Probe.lifecycle", ["C17", "C05"], [P + ":Probe.__init__", P + ":Probe._enter", P + ":Probe._exit", P + ":Probe._emit", P + ":Probe._make_rule",
                                           P + ":Probe._make_emitter", P + ":Probe._install_tooling", P + ":Probe._uninstall_tooling",
-                                          P + ":Probe.activate", P + ":Probe.deactivate",
+                                          P + ":Probe.activate", P + ":Probe.deactivate", P + ":Probe.__exit__",
                                           G + ":SourceProxy.__init__", G + ":SourceProxy._push", G + ":SourceProxy.__enter__", G + ":SourceProxy.__exit__"],
       assumed=["reactivex.create(make): subscribing calls make(observer, scheduler) once (observers are attached by calling make directly)",
                "autotool is used through ghost events (its contract is the 'autotool' unit)"])
@@ -473,6 +473,25 @@ def u_probe_lifecycle(c):
     # --- deactivation (normal or by exception)
     exc = c.choose(2)
     args = [None, None, None] if not exc else [ValueError, ValueError("x"), None]
+    if c.choose(2, "completion-raises"):
+        # a subscriber raises when the stream completes (e.g. min() over no element): the with-block is left by that exception,
+        # and -- from the property -- a block left by an exception leaves nothing installed and completes the stream all the same
+        from pvc.units import UserError
+
+        def bad_completed(it_, a, k):
+            events.append(("o1", "completed"))
+            raise PyRaise(UserError("completion"))
+
+        o1.attrs["on_completed"] = SummaryFn("on_completed", bad_completed)
+        st, r = run(it, it.getattr(prb, "__exit__"), args)
+        c.prove("exit-with-failing-subscriber/error-propagates", st == "raise" and isinstance(r, UserError))
+        c.prove("exit-with-failing-subscriber/every-observer-completed-once-then-untooled",
+                events == [("o1", "completed"), ("o2", "completed"), ("autotool", sel, True)], note=str([e[:2] for e in events]))
+        c.prove("exit-with-failing-subscriber/overlay-and-registration-removed", var.value is None and prb not in gp and prb.fields["_observers"] == [])
+        del events[:]
+        st, r = run(it, it.getattr(prb, "_emit"), [d1])
+        c.prove("exit-with-failing-subscriber/silent-afterwards", st == "ok" and events == [])
+        return
     st, r = run(it, it.getattr(prb, "__exit__"), args)
     c.prove("exit/no-raise", st == "ok" and not it.truth(r))
     c.prove("exit/completes-each-observer-once-then-untools", events == [("o1", "completed"), ("o2", "completed"), ("autotool", sel, True)])
@@ -488,7 +507,7 @@ def u_probe_lifecycle(c):
 sp_obs = z3.Function("sp_obs", z3.IntSort(), z3.IntSort())
 
 
-@unit("SourceProxy.fanout", ["C17", "C02"], [G + ":SourceProxy._push", G + ":SourceProxy.__exit__"])
+@unit("SourceProxy.fanout", ["C17", "C02"], [G + ":SourceProxy._push", G + ":SourceProxy.__exit__", P + ":Probe.__exit__"])
 def u_fanout(c):
     """For ANY number of observers: _push(d) calls on_next(d) exactly once per observer in order; root __exit__ calls
     on_completed exactly once per observer in order, then clears the list, then _exit() -- independently of the exception."""
@@ -517,7 +536,7 @@ def u_fanout(c):
     obs_attrs_clear = SummaryFn("clear", lambda it_, a, k: cleared.append(it_.ctx.log))
     seqobj = SymObj("observers", Val.ref(z3.IntVal(c.new_id())), attrs={"clear": obs_attrs_clear})
     NX = Fold("NX", Log, log_nil, lambda i, acc: log_snoc(acc, ev_next(Val.ref(sp_obs(i)), data.t)))
-    which = c.choose(2)
+    which = c.choose(3)
     SP = it.get_global(G, "SourceProxy")
     exits = []
     prox = Obj(SP, c.new_id())
@@ -541,7 +560,13 @@ def u_fanout(c):
             return orig(it_, o, name)
 
         it.models = type("ModelsProxy", (), {**{k: getattr(M_, k) for k in dir(M_)}, "symseq_attr": staticmethod(symseq_attr)})
-        prox.cls = ClassV("SP_sub", G, SP.node, [SP], SP.env)
+        if which == 2:
+            # the root __exit__ a probe actually runs (ptera overrides giving's): same contract when no subscriber raises
+            PR = it.get_global(P, "Probe")
+            it.loopspecs = {(P + ":Probe.__exit__", 0): LoopSpec(ghost=lambda it_, env, i: DN.at(i), axioms=lambda it_, env, i: DN.axioms(i))}
+            prox.cls = ClassV("Probe_sub", P, PR.node, [PR], PR.env)
+        else:
+            prox.cls = ClassV("SP_sub", G, SP.node, [SP], SP.env)
         prox.cls.attrs["_exit"] = SummaryFn("_exit", lambda it_, a, k: exits.append(it_.ctx.log))
         exc = c.choose(2)
         st, r = run(it, it.getattr(prox, "__exit__"), [None, None, None] if not exc else [ValueError, ValueError("x"), None])
@@ -601,9 +626,101 @@ def u_overridable_emit(c):
     c.prove("override/subscribes", st == "ok" and len(prb.fields["_observers"]) == 1)
     st, r1 = run(it, it.getattr(prb, "_emit"), [d1])
     c.prove("first-binding/override-applies", st == "ok" and r1 is not absent and isinstance(r1, Sym))
+    # a setter that is not callable is the VALUE to store -- whatever it is (None, 0, False and '' included); without an
+    # argument the value that reaches the end of the pipeline is stored as it is
+    consts = [None, 0, False, "", 10]
+    kk = c.choose(len(consts) + 1, "constant-setter")
+    prb2 = it.call(OP, [sel], {})
+    if kk < len(consts):
+        st, _ = run(it, it.getattr(prb2, "override"), [consts[kk]])
+        c.prove("override-constant/subscribes", st == "ok" and len(prb2.fields["_observers"]) == 1)
+        st, rc = run(it, it.getattr(prb2, "_emit"), [d1])
+        same = rc is consts[kk] or (type(rc) is type(consts[kk]) and rc == consts[kk])
+        c.prove("override-constant/the-given-constant-is-stored", st == "ok" and same, note=f"override({consts[kk]!r}) stored {rc!r}")
+    else:
+        st, _ = run(it, it.getattr(prb2, "override"), [])
+        st, rc = run(it, it.getattr(prb2, "_emit"), [d1])
+        c.prove("override-no-argument/the-stream-value-is-stored", st == "ok" and isinstance(rc, dict) and set(rc) == {"a"} and rc["a"] is cap.fields["values"][0])
     gate["open"] = False  # the pipeline filters the next event: the override declines for that binding
     st, r2 = run(it, it.getattr(prb, "_emit"), [d1])
     c.prove("later-binding/declined-binding-is-untouched(no stale value)", st == "ok" and r2 is absent)
     gate["open"] = True
     st, r3 = run(it, it.getattr(prb, "_emit"), [d1])
     c.prove("third-binding/override-applies-again", st == "ok" and r3 is not absent)
+
+
+@unit("Probe.multi-selector", ["C05", "C07", "C17", "C02"], [P + ":Probe.__init__", P + ":Probe._make_rule", P + ":Probe._enter", P + ":Probe._exit",
+                                                             P + ":Probe._install_tooling", P + ":Probe._uninstall_tooling"], mode="bounded",
+      bound="one probe given 3 selectors, each with or without a focus, every probe_type, autotool refusing at any position or not at all",
+      assumed=["autotool is used through ghost events (its own contract -- a refused selector leaves nothing behind -- is the 'autotool' unit)"])
+def u_probe_multi(c):
+    """A probe given several selectors: rule i belongs to selector i and its kind is decided by THAT selector alone (no focus
+    -> total, one record per outermost call; focus -> immediate; forced total -> total).  Activation tools each selector
+    once; if autotool refuses selector k the exception propagates, selectors 0..k-1 are undone exactly once each, selectors
+    after k are not touched (their instrumentation count must not be decremented), and nothing is installed or registered.
+    Deactivation undoes each selector exactly once."""
+    it = Interp(c)
+    _giving_hooks(it)
+    events = []
+    N = 3
+    refuse_at = c.choose(N + 1, "refuse_at")  # N = nobody refuses
+
+    Element = it.get_global(S, "Element")
+    Call = it.get_global(S, "Call")
+    sels, focus = [], []
+    for i in range(N):
+        fo = bool(c.choose(2, f"focus{i}"))
+        focus.append(fo)
+        fnobj = SymObj(f"f{i}", Val.ref(z3.IntVal(c.new_id())))
+        cap = it.call(Element, [], dict(name="a", capture="a", tags=frozenset({1}) if fo else frozenset()))
+        sels.append(it.call(Call, [], dict(element=it.call(Element, [], dict(name=fnobj)), captures=(cap,))))
+    count = {id(s): 0 for s in sels}
+    negative = []
+
+    def autotool(it_, f, a, k):
+        undo = bool(k.get("undo", False))
+        events.append(("autotool", a[0], undo))
+        if not undo and a[0] is sels[refuse_at if refuse_at < N else 0] and refuse_at < N:
+            # contract of autotool: a refused selector leaves no trace (its own pushes are undone before the error propagates)
+            raise PyRaise(it_.instantiate(it_.get_global(S, "SelectorError"), ["refused"], {}))
+        count[id(a[0])] += -1 if undo else 1
+        if count[id(a[0])] < 0:
+            negative.append(a[0])
+        return a[0]
+
+    it.policies[O + ":autotool"] = autotool
+    ptype = [None, "total", "immediate"][c.choose(3, "probe_type")]
+    Probe = it.get_global(P, "Probe")
+    st, prb = run(it, Probe, sels, dict(probe_type=ptype))
+    c.prove("new/no-raise", st == "ok")
+    if st != "ok":
+        return
+    rules = prb.fields["_ol"].fields["handlers"]
+    c.prove("new/one-rule-per-selector-in-order", len(rules) == N and all(rules[i].fields["selector"] is sels[i] for i in range(N)))
+    if len(rules) != N:
+        return
+    for i in range(N):
+        if ptype == "total" or (ptype is None and not focus[i]):
+            c.prove(f"new/rule{i}/focus-free-or-forced-total-selector-gets-a-total-rule", rules[i].cls.name == "Total")
+        elif focus[i]:
+            c.prove(f"new/rule{i}/focused-selector-gets-an-immediate-rule", rules[i].cls.name == "Immediate")
+    HC = it.get_global(O, "HandlerCollection")
+    var = HC.attrs["current"]
+    gp = it.get_global(P, "global_probes")
+    st, r = run(it, it.getattr(prb, "__enter__"), [])
+    if refuse_at < N:
+        c.prove("refused/error-propagates", st == "raise" and exc_name(r) == "SelectorError")
+        c.prove("refused/no-count-ever-negative", not negative)
+        c.prove("refused/every-count-back-to-zero", all(v == 0 for v in count.values()))
+        c.prove("refused/selectors-after-the-refused-one-untouched", all(e[1] is not s for e in events for s in sels[refuse_at + 1:]))
+        c.prove("refused/nothing-installed-or-registered", var.value is None and prb not in gp)
+        return
+    c.prove("enter/no-raise", st == "ok")
+    c.prove("enter/each-selector-tooled-once-in-order", events == [("autotool", s, False) for s in sels])
+    c.prove("enter/overlay-installed-with-all-rules", isinstance(var.value, Obj) and [p[1] for p in var.value.fields["handler_pairs"]] == list(rules) and prb in gp)
+    del events[:]
+    st, r = run(it, it.getattr(prb, "__exit__"), [None, None, None])
+    c.prove("exit/no-raise", st == "ok")
+    c.prove("exit/each-selector-undone-once", sorted(id(e[1]) for e in events) == sorted(id(s) for s in sels) and all(e[2] for e in events) and not negative
+            and all(v == 0 for v in count.values()))
+    c.prove("exit/nothing-left", var.value is None and prb not in gp)
